@@ -321,7 +321,10 @@ def gen_c04(rng, tier):
         big = "x" * rng.choice([10, 1500, 3000])
         jtok = "J" + json.dumps(big).encode().hex() + "~" + big.encode().hex()
         ops = ["N:a", "S:a:%s:ok" % ctrl, "ST", "N:b", "V:b:%s:ok" % ctrl, "A:b", "G:b:2.9,3.12", "P:b:4.13:%s:-" % jtok, "G:b:4.13", "TXT"]
-        mk(cases, "honest", ops, {"nacc": nacc, "ctrl": name.hex(), "big": big}, opts="pin=%s nacc=%d fsz=%d" % (pin, nacc, rng.choice([1024, 1024, 500, 100, 37])))
+        # the controller's TCP segments need not coincide with requests, TLV items or frames
+        wseg = rng.choice([0, 0, 53, 7, 211]) if nacc <= 30 else 0
+        mk(cases, "honest", ops, {"nacc": nacc, "ctrl": name.hex(), "big": big},
+           opts="pin=%s nacc=%d fsz=%d wseg=%d" % (pin, nacc, rng.choice([1024, 1024, 500, 100, 37]), wseg))
     # many verifications in a row, several driver processes at once: a verification must never fail intermittently
     # (not retried: an intermittent failure of an honest handshake is a violation, see fix e748ac2)
     for i in range(16 if tier == "quick" else 64):
@@ -412,7 +415,14 @@ def gen_c09(rng, tier):
             elif r < 0.75:
                 s = rng.choice(STRS)
                 ops.append(rng.choice(["P:a:4.13:%s:-", "L:4.13:%s"]) % jstr(s))
-            ids = rng.sample(["2.9", "3.12", "3.10", "4.13", "4.12", "1.5", "2.99", "9.1", "3.11", "4.11"], rng.randrange(1, 6))
+            elif r < 0.9:
+                # 32-bit unsigned without declared bounds: the whole range, in both directions; a write may carry "ev" too
+                x = rng.choice([0, 1, 255, 65536, 2147483647, 2147483648, 3000000000, 4294967295])
+                ops.append(rng.choice(["P:a:4.14:%s:-", "P:a:4.14:%s:1", "P:a:4.14:%s:0", "L:4.14:%s"]) % sc.num(x))
+            elif r < 0.95:
+                # value and event subscription in ONE write entry
+                ops.append("P:a:2.9:%s:%s" % (rng.choice(["true", "false"]), rng.choice(["1", "0"])))
+            ids = rng.sample(["2.9", "3.12", "3.10", "4.13", "4.12", "4.14", "1.5", "2.99", "9.1", "3.11", "4.11"], rng.randrange(1, 6))
             ops.append("G:a:" + ",".join(ids))
             if rng.random() < 0.3:
                 ops.append("A:a")
@@ -503,8 +513,13 @@ def gen_c11(rng, tier):
                 ops += ["P:b:4.13:-:%s" % rng.choice(["1", "1", "n1", "s1", "st"]), "L:4.13:%s" % jstr("v%d" % rng.randrange(100)), "W", "E:b"]
             elif r < 0.8:
                 ops += ["P:b:4.12:-:%s" % rng.choice(["1", "n1", "s1", "0"]), "L:4.12:%s" % sc.num(rng.randrange(50)), "W", "E:b"]
-            elif r < 0.9:
+            elif r < 0.85:
                 ops += ["P:b:1.2:-:1", "P:a:1.2:true:-", "W", "E:b", "CB"]
+            elif r < 0.93:
+                # subscribed to an observable characteristic of ONE accessory; a characteristic without event permission
+                # of ANOTHER accessory that happens to have the same instance id changes
+                ops += ["P:b:3.12:-:1", "L:4.12:%s" % sc.num(rng.randrange(50)), "W", "E:b",
+                        "P:b:4.9:-:1", "L:4.13:%s" % jstr("w%d" % rng.randrange(100)), "W", "E:b"]
             else:
                 ops += ["P:a:2.9:%s:-" % rng.choice(["true", "false"]), "W", "E:b", "CB"]
         mk(cases, "perms", ops)
@@ -566,7 +581,7 @@ def oracle_c11(c, obs):
 def gen_c10(rng, tier):
     cases = []
     n = 30 if tier == "quick" else 500
-    chars = ["2.9", "4.9", "3.12", "3.10"]
+    chars = ["2.9", "4.9", "3.12", "3.10", "4.13"]      # 4.13 permits read and write but NOT events
     for _ in range(n):
         k = rng.randrange(2, 5)
         conns = ["c%d" % i for i in range(k)]
@@ -584,11 +599,11 @@ def gen_c10(rng, tier):
                 ops.append("P:%s:%s:-:%d" % (rng.choice(live), rng.choice(chars), rng.randrange(2)))
             elif r < 0.55:
                 ch = rng.choice(chars)
-                v = rng.choice(["true", "false"]) if ch in ("2.9", "4.9") else (sc.num(rng.choice([10, 20, 30.5, 38, 5, 50, 100, 9.5])) if ch == "3.12" else sc.num(rng.choice([0, 1, 2])))
+                v = rng.choice(["true", "false"]) if ch in ("2.9", "4.9") else (sc.num(rng.choice([10, 20, 30.5, 38, 5, 50, 100, 9.5])) if ch == "3.12" else (jstr("t%d" % rng.randrange(5)) if ch == "4.13" else sc.num(rng.choice([0, 1, 2]))))
                 ops.append("L:%s:%s" % (ch, v))
             elif r < 0.8 and live:
                 ch = rng.choice(chars)
-                v = rng.choice(["true", "false"]) if ch in ("2.9", "4.9") else (sc.num(rng.choice([10, 20, 30.5, 38, 5, 50, 100, 9.5])) if ch == "3.12" else sc.num(rng.choice([0, 1, 2])))
+                v = rng.choice(["true", "false"]) if ch in ("2.9", "4.9") else (sc.num(rng.choice([10, 20, 30.5, 38, 5, 50, 100, 9.5])) if ch == "3.12" else (jstr("t%d" % rng.randrange(5)) if ch == "4.13" else sc.num(rng.choice([0, 1, 2]))))
                 ops.append("P:%s:%s:%s:-" % (rng.choice(live), ch, v))
             elif r < 0.9 and len(live) > 1:
                 c = rng.choice(live)
@@ -632,7 +647,7 @@ def oracle_c10(c, obs):
     it = iter(pairs)
 
     def change(cid, vt, origin):
-        want = "num:%r" % float(vt.split("@")[0]) if "@" in vt else sc.canon_val(vt)
+        want = ("s:" + vt.split("~")[1]) if vt.startswith("J") else ("num:%r" % float(vt.split("@")[0]) if "@" in vt else sc.canon_val(vt))
         if want.startswith("num:"):
             # the library clamps to the declared bounds before it compares with the stored value
             x = float(want[4:])
@@ -712,6 +727,12 @@ def gen_c13(rng, tier):
                 ops.append("S:x:e1:%s" % rng.choice(["m5short", "m5empty", "m5flip", "m5inner", "m5zerokey", "badstep", "badmethod", "garbage", "m5first", "a0", "aempty"]))
             elif r < 0.8:
                 ops.append("V:x:c0:%s" % rng.choice(["short0", "short7", "short15", "short16", "flip", "zerokey", "inner-garbage", "keylen0", "keylen33", "finishfirst", "garbage", "unknown"]))
+            elif r < 0.82 and state == "verified":
+                # an "ev" member that is not a boolean, on observable and non-observable characteristics
+                ops.append("P:x:%s:-:%s" % (rng.choice(["2.9", "4.13", "3.12", "4.14"]), rng.choice(["st", "s1", "n1", "n0"])))
+            elif r < 0.86 and state == "verified":
+                # a pairing whose long-term public key has the wrong length, then somebody tries to verify with it
+                ops += ["R:x:odd:%s" % rng.choice(["addshortkey", "addlongkey"]), "N:q", "V:q:odd:%s" % rng.choice(["ok", "badsig"]), "K:q"]
             elif r < 0.9 and state == "verified":
                 ops.append("P:x:%s:%s:-" % (rng.choice(["2.9", "4.13", "3.12", "3.10"]), rng.choice(["OBJ", "ARR", "null", sc.num(1e300), "true", jstr("NaN")])))
             else:
@@ -720,8 +741,17 @@ def gen_c13(rng, tier):
         if state != "verified":
             ops += ["S:x:n1:ok", "S:x:n1:ok", "ST"]
             ops += ["V:x:c0:ok", "V:x:c0:ok", "G:x:2.9"]
-        ops += ["N:y", "S:y:n2:ok", "N:z", "V:z:n2:ok", "G:z:2.9", "ST"]
+        # ... and the accessory still serves the whole protocol (attribute database, writes) to a new controller
+        ops += ["N:y", "S:y:n2:ok", "N:z", "V:z:n2:ok", "G:z:2.9", "A:z", "P:z:2.9:true:-", "ST"]
+        if state == "verified":
+            ops += ["A:x", "P:x:2.9:false:-"]
         mk(cases, "robust", ops, {"state": state})
+    # directed: type errors inside an otherwise well-formed write of a verified controller must not wedge anything
+    for cid in ["2.9", "3.12", "4.14", "4.13"]:
+        for ev in ["st", "s1", "n1", "n0"]:
+            ops = ["N:h", "S:h:c0:ok", "N:x", "V:x:c0:ok", "P:x:%s:-:%s" % (cid, ev), "G:x:2.9",
+                   "N:y", "S:y:n2:ok", "N:z", "V:z:n2:ok", "G:z:2.9", "A:z", "P:z:2.9:true:-", "ST", "A:x", "P:x:2.9:false:-"]
+            mk(cases, "robust", ops, {"state": "verified"})
     return cases
 
 
@@ -736,7 +766,7 @@ def oracle_c13(c, obs):
         p = op.split(":")
         if p[0] == "V" and p[3] == "ok" and "err" not in tok and tok.startswith("V=st2/st4"):
             secured.add(p[1])
-        if p[0] in ("B", "S", "V", "P") and p[1] == "x":
+        if p[0] in ("B", "S", "V", "P", "R") and p[1] in ("x", "q"):
             body = tok.split("=", 1)[1].split("[")[0]
             if "closed" in body.split("/"):
                 # plaintext sent by the adversary op X on an encrypted connection legitimately ends the connection
@@ -744,6 +774,12 @@ def oracle_c13(c, obs):
     last = dict((o, t) for o, t in pairs)
     if last.get("S:y:n2:ok", "") != "S=st2/st4/st6[M2okM6ok]" or not last.get("V:z:n2:ok", "").startswith("V=st2/st4[") or not last.get("G:z:2.9", "").startswith("G=200"):
         return "after the malformed input a correct handshake on a new connection no longer succeeds: %s %s %s" % (last.get("S:y:n2:ok"), last.get("V:z:n2:ok"), last.get("G:z:2.9", "")[:40])
+    if not last.get("A:z", "").startswith("A=200") or not last.get("P:z:2.9:true:-", "").startswith("P=204"):
+        return "after the malformed input the accessory no longer serves the attribute database / a write to a new, verified controller: %s %s" % (last.get("A:z", "")[:30], last.get("P:z:2.9:true:-", "")[:30])
+    if c["meta"]["state"] == "verified" and "A:x" in last:
+        xdead0 = any(t.endswith("closed") or t.endswith("noconn") for o, t in pairs if o.split(":")[1:2] == ["x"] and o.split(":")[0] in ("X",))
+        if not xdead0 and not (last["A:x"].startswith("A=200") and last.get("P:x:2.9:false:-", "").startswith("P=204")):
+            return "after the malformed input the verified connection is no longer served: %s %s" % (last["A:x"][:30], last.get("P:x:2.9:false:-", "")[:30])
     if c["meta"]["state"] != "verified":
         # plaintext X ops can have closed x only if x was verified; otherwise the same connection must recover
         xdead = any(t.endswith("closed") or t.endswith("noconn") for o, t in pairs if o.split(":")[1:2] == ["x"])
